@@ -119,7 +119,8 @@ struct Outcome {
     responses: u64,
 }
 
-fn run_stream(alpha: &[Elt], seq: &[usize], bytewise: bool, cuts: Option<&[usize]>) -> Result<Outcome, String> {
+/// `fin`: the whole stream in one write and the client's FIN right behind it, before the server runs.
+fn run_stream(alpha: &[Elt], seq: &[usize], bytewise: bool, cuts: Option<&[usize]>, fin: bool) -> Result<Outcome, String> {
     let w = net::NetWorld::new(NetCfg::default())?;
     // prelude on its own connection: k = "5" flags 1
     let tok = {
@@ -162,6 +163,10 @@ fn run_stream(alpha: &[Elt], seq: &[usize], bytewise: bool, cuts: Option<&[usize
             }
             chunks += 1;
         }
+    } else if fin {
+        let _ = c.send(&w, &bytes);
+        c.shutdown_write(&w);
+        chunks += 1;
     } else {
         let _ = c.step(&w, &bytes);
         chunks += 1;
@@ -279,7 +284,7 @@ fn run_stream(alpha: &[Elt], seq: &[usize], bytewise: bool, cuts: Option<&[usize
             ));
         } else if expect_close && !c.eof {
             problem = Some(("quit|not-closed".into(), "the connection was not closed after quit/quitq/undefined opcode".into()));
-        } else if !expect_close && c.eof {
+        } else if !expect_close && c.eof && !fin {
             problem = Some(("closed|unexpected".into(), "the server closed the connection although every request was valid".into()));
         }
     }
@@ -334,7 +339,7 @@ fn run_stream(alpha: &[Elt], seq: &[usize], bytewise: bool, cuts: Option<&[usize
             format!(
                 "stream [{}] ({}): {} ; responses: {}",
                 names.join(" "),
-                if bytewise { "byte-at-a-time" } else if cuts.is_some() { "cut" } else { "one segment" },
+                if bytewise { "byte-at-a-time" } else if cuts.is_some() { "cut" } else if fin { "one segment, then FIN at once" } else { "one segment" },
                 what,
                 resps.iter().map(|r| format!("{}:{:#x}", wire::op_name(r.opcode), r.status)).collect::<Vec<_>>().join(" ")
             ),
@@ -382,15 +387,15 @@ pub fn check(tier: Tier, threads: usize) -> CheckOutcome {
     streams.dedup();
     crate::watchdog::working_on("C12 pipelined streams".into());
     let results = par_map(&streams, threads, |_, sq| -> Result<(Outcome, Outcome, Option<Outcome>), String> {
-        let a = run_stream(&alpha, sq, false, None)?;
-        let mut b = run_stream(&alpha, sq, true, None)?;
+        let a = run_stream(&alpha, sq, false, None, false)?;
+        let mut b = run_stream(&alpha, sq, true, None, false)?;
         // a stream with an oversized request is also delivered in three pieces cut inside that body
         if b.viol.is_none() {
             let mut off = 0usize;
             for (i, e) in sq.iter().enumerate() {
                 let len = alpha[*e].req(i as u32).bytes().len();
                 if matches!(alpha[*e], Elt::Oversized(..)) {
-                    let o = run_stream(&alpha, sq, false, Some(&[off + 24 + 100, off + len - 300]))?;
+                    let o = run_stream(&alpha, sq, false, Some(&[off + 24 + 100, off + len - 300]), false)?;
                     if o.viol.is_some() {
                         b = o;
                     }
@@ -399,12 +404,19 @@ pub fn check(tier: Tier, threads: usize) -> CheckOutcome {
                 off += len;
             }
         }
+        // the client that pipelines and half-closes at once: everything sent is still executed and answered
+        if b.viol.is_none() {
+            let o = run_stream(&alpha, sq, false, None, true)?;
+            if o.viol.is_some() {
+                b = o;
+            }
+        }
         // thorough: additionally every single cut of 2-frame streams
         let mut c = None;
         if tier == Tier::Thorough && sq.len() == 2 {
             let total: usize = sq.iter().enumerate().map(|(i, e)| alpha[*e].req(i as u32).bytes().len()).sum();
             for cut in 1..total {
-                let o = run_stream(&alpha, sq, false, Some(&[cut]))?;
+                let o = run_stream(&alpha, sq, false, Some(&[cut]), false)?;
                 if o.viol.is_some() {
                     c = Some(o);
                     break;
@@ -463,7 +475,7 @@ pub fn check(tier: Tier, threads: usize) -> CheckOutcome {
             "alphabet": alpha.iter().map(|e| e.name()).collect::<Vec<_>>(),
             "samples": samples,
             "exhaustive": true,
-            "rule": "every stream of 1..2 requests (thorough: 3) over the alphabet of all opcodes 0x00-0x24 (hit/miss, success/error operands, loud and quiet, unimplemented, undefined) plus every stream with quit/quitq in the middle, each sent in one segment and byte-at-a-time (thorough: every single cut of 2-request streams) over real loopback TCP; responses matched to requests by opaque in order and validated by the sequential specification; final store compared with the specification state",
+            "rule": "every stream of 1..2 requests (thorough: 3) over the alphabet of all opcodes 0x00-0x24 (hit/miss, success/error operands, loud and quiet, unimplemented, undefined) plus every stream with quit/quitq in the middle, each sent in one segment, byte-at-a-time, and in one segment followed at once by the client's FIN (thorough: every single cut of 2-request streams) over real loopback TCP; responses matched to requests by opaque in order and validated by the sequential specification; final store compared with the specification state",
         }),
         assumptions: vec!["tokio paused-clock quiescence; loopback delivery before the send syscall returns".into()],
         violations: found.into_values().collect(),
@@ -476,9 +488,9 @@ pub fn replay(v: &serde_json::Value) -> Result<Option<String>, String> {
     let alpha = alphabet();
     let sq: Vec<usize> = v["indices"].as_array().map(|a| a.iter().filter_map(|x| x.as_u64().map(|y| y as usize)).collect()).unwrap_or_default();
     let mut out = None;
-    for bytewise in [false, true] {
-        let a = run_stream(&alpha, &sq, bytewise, None)?.viol;
-        let b = run_stream(&alpha, &sq, bytewise, None)?.viol;
+    for (bytewise, fin) in [(false, false), (true, false), (false, true)] {
+        let a = run_stream(&alpha, &sq, bytewise, None, fin)?.viol;
+        let b = run_stream(&alpha, &sq, bytewise, None, fin)?.viol;
         if a != b {
             return Err("two replays of the same stream differ".into());
         }
